@@ -47,6 +47,10 @@ CHECKS = {
         text="RefEdit.tla: declarative edit of a well-formed lexeme sequence (targets through the ancestor chain, value before the end tag / after the start tag / instead of the whole span for every sibling occurrence incl. void and self-closing, selector rule, composition left to right). TLC checks RunWhole = RefOut on every case inside the domain of the property; the real single-chunk output is compared by TLC with the rendering of RefOut.",
         note="Domain exactly as the property states (each path element once and child of the previous, append/prepend targets unique and non-void, replace targets possibly repeated siblings). Bounded to BodyCases.tla.",
         ref="DESIGN.md section 6, C15"),
+    "C16": dict(
+        text="Tokenizer.tla states the span contract of next() as an abstract machine (contiguity, progress, sticky Error, raw spans + unread remainder = input after every call, at most one token per input byte). TLC checks the machine and enumerates ALL inputs up to length 4 (quick) / 5 (thorough) over a 16-symbol markup alphabet (and up to 6 over alphabets that spell raw-text elements); the harness tokenises each with the real tokenizer through the public API only, in a helper thread with a timeout, recording type, raw span, remainder and accessor outcomes per call (+ two calls after the first Error); TLC validates each recorded call sequence against the contract. Seeded random longer inputs over markup alphabets and arbitrary bytes go through the same validation.",
+        note="Totality/losslessness only: token types, names and attribute values are judged only on the lexeme-structured documents of C03/C15 (zero drift there). Bounded exhaustive lengths; random beyond.",
+        ref="DESIGN.md section 6, C16"),
     "C17": dict(
         text="For every (router state, probe request) of the C01 and C02 universes (so also after removals, change-sets and cache warm-ups) the harness records the ids found in trace_request's tree, the priority of get_trace's final route and of get_route; TLC checks set(trace routes) = set(match) — the match itself being judged against Sat — and equal priorities.",
         note="The per-step action trace (TraceAction) part of the property is exercised through the analysis checks (explain) — see C19. Bounded as C01/C02.",
